@@ -88,7 +88,7 @@ def m_surface(ctx, case):
         return
     res = r[1]
     nl0, nl1 = cpr.NL(rl0), cpr.NL(rl1)
-    amb = cpr.near_transition(rl0) or cpr.near_transition(rl1)
+    amb = (cpr.near_transition(rl0) and abs(rl0) != 87.0) or (cpr.near_transition(rl1) and abs(rl1) != 87.0)   # NL(+-87) = 2 is defined explicitly
     if res is None:
         ctx.hit("none_result")
         if amb:
